@@ -59,7 +59,8 @@ def reset_state():
     for mgr in (gt.no_autodiff, lm.mem_guard_off, lm.mem_guard_on):
         mgr._depth = 0
         mgr._depth_tracker = {}
-    gc.collect()
+    if lm._array_counter or lm._array_tracker or lm._views_waiting_for_unlock:
+        gc.collect()
     lm._array_counter.clear()
     lm._array_tracker.clear()
     lm._views_waiting_for_unlock.clear()
